@@ -50,6 +50,7 @@ pub proof fn lemma_dec_digits(n: nat)
         n > 0 ==> dec(n)[0] != '0',
     decreases n
 {
+    reveal_with_fuel(digits_val, 2);
     if n < 10 {
         let c = (('0' as nat + n) as u8) as char;
         assert(dec(n) =~= seq![c]);
